@@ -110,7 +110,11 @@ class IncludeExcludeTree():
                 elif key in self.subtrees:
                     subtree = self.subtrees[key]
                     if isinstance(value, dict):
-                        result[key] = subtree.get(value)
+                        subresult = subtree.get(value)
+                        # an excluded subdictionary, from which
+                        # nothing was included, is not selected
+                        if subresult or subtree.include:
+                            result[key] = subresult
                     elif subtree.include:
                         # not a dictionary: it is selected as a whole,
                         # if the subtree includes by default
@@ -126,7 +130,11 @@ class IncludeExcludeTree():
                 elif key in self.subtrees:
                     subtree = self.subtrees[key]
                     if isinstance(value, dict):
-                        result[key] = subtree.get(value)
+                        subresult = subtree.get(value)
+                        # an excluded subdictionary, from which
+                        # nothing was included, is not selected
+                        if subresult or subtree.include:
+                            result[key] = subresult
                     elif subtree.include:
                         # not a dictionary: it is selected as a whole,
                         # if the subtree includes by default
